@@ -214,6 +214,19 @@ def ob_klatt_concrete():
             kg2.save(fn2)
             if _dump(kgio.openKlattgrid(fn2)) != want:
                 return "second save/open cycle changes the values"
+            # state carried between two saves of the same object: save, change values directly on one
+            # sub-tier (modifyValues) and through the container (modifySubtiers), save again
+            sub = kg2.getTier("oral_formants").tierDict["formants"]
+            first = sub.tierDict[sub.tierNameList[1]]
+            first.modifyValues(lambda v: v * 0.3 + 1)
+            kg2.getTier("oral_formants").modifySubtiers("bandwidths", lambda v: v + 0.125)
+            want3 = _dump(kg2)
+            if want3 == want:
+                return "harness: modification had no effect"
+            fn3 = os.path.join(d, "c.KlattGrid")
+            kg2.save(fn3)
+            if _dump(kgio.openKlattgrid(fn3)) != want3:
+                return "values changed after an earlier save are not in the next saved file"
             return True
         finally:
             shutil.rmtree(d, ignore_errors=True)
@@ -298,7 +311,8 @@ def ob_klatt_synthetic_concrete():
     return Ob("klattgrid-synthetic-concrete", I("i", "nf"), check, kind="smt", smt=run, timeout=120, funcs=FUNCS[1:4], bounds="concrete cross-check: synthetic KlattGrids with 0, 1, 2, 3 and 11 oral formants whose last tier holds points (values with 17 digits, exponents, integers, zero, negative)")
 
 
-PTS = [[], [(0.5, 100.0)], [(1.2345678901234567e-05, 3e-17), (0.1 + 0.2, 5e-324), (7.0, 75.0), (1e16, 1.7976931348623157e308)], [(0.25, 0.0), (1 / 3.0, 2 / 3.0)]]
+# the point list is kept exactly as given: also when it is not in time order, or has two points at the same time
+PTS = [[], [(0.5, 100.0)], [(1.2345678901234567e-05, 3e-17), (0.1 + 0.2, 5e-324), (7.0, 75.0), (1e16, 1.7976931348623157e308)], [(0.25, 0.0), (1 / 3.0, 2 / 3.0)], [(0.75, 9.0), (0.5, 2.0), (0.5, 1.0), (0.25, 5.0)]]
 
 
 def ob_points_concrete():
